@@ -114,16 +114,7 @@ theorem exec_keeps (p : Prog) : ∀ ko, tight ko p = true → Keeps ko (exec p) 
     exact andThen_keeps (ihk ko h) rfl
   | ma leak body k ihb ihk =>
     intro ko h s st
-    simp only [tight, Bool.and_eq_true, Bool.not_eq_true'] at h
-    obtain ⟨⟨hl, hb⟩, hk⟩ := h
-    subst hl
-    simp only [exec]
-    refine andThen_keeps (ihk ko hk) ?_
-    have := (ihb true hb none st).1
-    simp only [restoreVal_none] at this
-    rw [← this]
-    simp only [dropMa]
-    cases (exec body none st).2.1 <;> simp
+    simp [tight] at h
   | key loc k ih =>
     intro ko h s st
     simp only [tight, Bool.and_eq_true] at h
@@ -356,9 +347,6 @@ theorem exec_tp (p : Prog) : TP (exec p) := by
     rw [ihb pre none st]
     refine andThen_tp ?_ ihk
     simp only [addPre, dropMa]
-    cases leak with
-    | true => rfl
-    | false => cases (exec body none st).2.1 <;> rfl
   | key loc k ih =>
     intro pre s st
     cases s with
